@@ -30,6 +30,12 @@ def build_cases(ctx):
             if per_zone is None and rng.random() < 0.15:
                 cases.append(ktz.make_case(z, tr, rng, n=30))
         cases.append(ktz.make_case(z, None, rng))
+        # the repeated hour of a fall-back night listed twice, as the wall clock shows it
+        backs = [tr for tr in trs if tr[2] < tr[1]]
+        for tr in (backs if per_zone is None else backs[-1:]):
+            rc = ktz.make_repeated_case(z, tr, rng)
+            if rc:
+                cases.append(rc)
         if trs and per_zone is not None:
             cases.append(ktz.make_case(z, trs[0], rng, n=30))
     return cases
